@@ -68,11 +68,23 @@ def observe(net, src, tgt):
 def run_case(c):
     from pyunicorn.core import Network
     den = float(c["wden"])
-    net0 = Network(adjacency=np.array(c["A"]), directed=bool(c["directed"]),
-                   node_weights=np.array(c["w"], dtype=float) / den, silence_level=3)
     src = [s - 1 for s in c["src"]]
     tgt = [t - 1 for t in c["tgt"]]
+    import zlib
+    warm = zlib.crc32(c["case"].encode()) % 3 == 0
+    if warm:
+        # every third case: the object has answered every n.s.i. query for OTHER weights before it is given
+        # the weights of the case (the invariance is a statement about the network as it is now)
+        w_other = (np.arange(len(c["w"])) % 3 + 1.0)
+        net0 = Network(adjacency=np.array(c["A"]), directed=bool(c["directed"]), node_weights=w_other,
+                       silence_level=3)
+        observe(net0, src, tgt)
+        net0.node_weights = np.array(c["w"], dtype=float) / den
+    else:
+        net0 = Network(adjacency=np.array(c["A"]), directed=bool(c["directed"]),
+                       node_weights=np.array(c["w"], dtype=float) / den, silence_level=3)
     rec = dict(c)
+    rec["warm"] = int(warm)
     rec["obs0"] = observe(net0, src, tgt)
 
     def split(net, v, pn, pd, src, tgt):
@@ -122,6 +134,6 @@ def main(ctx):
 
 def replay(ctx, rep):
     rec = rep["record"]
-    case = {k: v for k, v in rec.items() if k not in ("obs0", "obs1", "obs2", "split1", "split2")}
+    case = {k: v for k, v in rec.items() if k not in ("obs0", "obs1", "obs2", "split1", "split2", "warm")}
     recs = ctx.run_cases("props.c02.run_case", [case], jobs=1)
     ctx.validate("Val_C02", "Val_C02", recs, nontrivial=_nontrivial)
